@@ -1277,12 +1277,26 @@ int restore_string (char *val, svalue_t * sv) {
   return 0;
 }
 
+/* The size pre-scan of a restore is kept in globals while the value is built. A restore that
+ * ends in error() (e.g. "Illegal array size." for a size above the configured maximum) never
+ * reaches the code that clears them, so every restore starts by clearing what is left. */
+static void reset_restore_prescan (void) {
+  if (save_svalue_depth || save_svalue_sizes)
+    {
+      save_svalue_depth = save_max_depth = 0;
+      if (save_svalue_sizes)
+        FREE ((char *) save_svalue_sizes);
+      save_svalue_sizes = (int *) 0;
+    }
+}
+
 /* for this case, the variable in question has been set to zero already,
    and we don't have to worry about preserving it */
 int restore_svalue (char *cp, svalue_t * v) {
   int ret;
   char c;
 
+  reset_restore_prescan ();
   switch (c = *cp++)
     {
     case '"':
@@ -1345,6 +1359,7 @@ int safe_restore_svalue (char *cp, svalue_t * v) {
   char c;
 
   val.type = T_NUMBER;
+  reset_restore_prescan ();
   switch (c = *cp++)
     {
     case '"':
